@@ -212,7 +212,7 @@ fn stmt_contains_break(stmt: &Statement) -> bool {
   }
 }
 
-fn stmts_contains_break(statements: &[Statement]) -> bool {
+pub(super) fn stmts_contains_break(statements: &[Statement]) -> bool {
   statements.iter().any(stmt_contains_break)
 }
 
